@@ -33,6 +33,12 @@ func NewServer(c RpcServerConf, register internal.RegisterFn) (*RpcServer, error
 		return nil, err
 	}
 
+	// set up the service first: the mode may disable load shedding,
+	// which the shedder reads when the interceptors below are built.
+	if err = c.SetUp(); err != nil {
+		return nil, err
+	}
+
 	var server internal.Server
 	metrics := stat.NewMetrics(c.ListenOn)
 	serverOptions := []internal.ServerOption{
@@ -59,9 +65,6 @@ func NewServer(c RpcServerConf, register internal.RegisterFn) (*RpcServer, error
 	rpcServer := &RpcServer{
 		server:   server,
 		register: register,
-	}
-	if err = c.SetUp(); err != nil {
-		return nil, err
 	}
 
 	return rpcServer, nil
